@@ -10,11 +10,14 @@ pub fn run_code_block(registers: &mut Registers, mem: *mut MemoryAreas) -> u8 {
     let started_in_fixed_bank = registers.ip < 0x4000;
     // An instruction that begins in bank 0 and is cut by the boundary begins
     // a block of its own (the recompiler ends its blocks at the same place).
-    if registers.ip != block_start && registers.ip >= 0x3ffe && registers.ip < 0x4000 {
+    // The same goes for an instruction that is cut by the end of ROM.
+    let before_boundary = |ip: u32, boundary: u32| ip >= boundary - 2 && ip < boundary;
+    if registers.ip != block_start && (before_boundary(registers.ip, 0x4000) || before_boundary(registers.ip, 0x8000)) {
+      let boundary = if registers.ip < 0x4000 { 0x4000 } else { 0x8000 };
       let ip = registers.ip as u16;
-      let bytes = [memory_read_byte(mem, ip), memory_read_byte(mem, ip + 1), memory_read_byte(mem, ip + 2)];
+      let bytes = [memory_read_byte(mem, ip), memory_read_byte(mem, ip.wrapping_add(1)), memory_read_byte(mem, ip.wrapping_add(2))];
       let (_, length, _) = decode(&bytes);
-      if registers.ip as usize + length > 0x4000 {
+      if registers.ip as usize + length > boundary {
         break;
       }
     }
